@@ -122,7 +122,31 @@ pub fn long_docs(kind: &str) -> Vec<Doc> {
     let mut bad = doc.clone();
     let k = bad.len() * 2 / 3;
     bad[k] = b'x';
-    vec![Doc::new(format!("^{kind}:long"), doc), Doc::new(format!("^{kind}:long-headerless"), headerless), Doc::new(format!("^{kind}:long-corrupted"), bad)]
+    // one very long line (a look-ahead of several chunks that is consumed in one go), followed by more
+    let small: &[u8] = match kind {
+        "cnf" => b"p cnf 3 2\n1 -3 0\n2 3 -1 0\n",
+        "wcnf" => b"p wcnf 3 2 10\n10 1 -2 0\n3 2 3 0\n",
+        "gcnf" => b"p gcnf 3 2 2\n{1} 1 -2 0\n{2} 3 0\n",
+        _ => b"s SATISFIABLE\nv 1 -2 3 0\n",
+    };
+    let mut long_comment = b"c ".to_vec();
+    long_comment.extend(std::iter::repeat(b'x').take(100_000));
+    long_comment.push(b'\n');
+    long_comment.extend_from_slice(small);
+    long_comment.extend_from_slice(b"c end\n");
+    let mut v = vec![Doc::new(format!("^{kind}:long"), doc), Doc::new(format!("^{kind}:long-headerless"), headerless), Doc::new(format!("^{kind}:long-corrupted"), bad), Doc::new(format!("^{kind}:long-comment-line"), long_comment)];
+    if kind != "log" {
+        // a long run of blanks in front of a clause, and a long run of blank lines
+        let mut blanks = small.to_vec();
+        blanks.extend(std::iter::repeat(b' ').take(70_000));
+        blanks.extend_from_slice(if kind == "cnf" { &b"0\n"[..] } else { &b"\n"[..] });
+        let mut d = small[..small.iter().position(|&b| b == b'\n').unwrap() + 1].to_vec();
+        d.extend(std::iter::repeat(b' ').take(70_000));
+        d.extend_from_slice(&small[small.iter().position(|&b| b == b'\n').unwrap() + 1..]);
+        v.push(Doc::new(format!("^{kind}:long-blank-run"), d));
+        let _ = blanks;
+    }
+    v
 }
 
 pub struct Inputs {
